@@ -9,9 +9,12 @@ def gen_sample(g, N=None, M=None, kind=None):
     """(N, M) dyadic sample as list of M columns of N Fractions"""
     N = N or g.small((1, 2, 3, 4, 5, 7, 8, 10, 16, 25, 33))
     M = M or g.small((1, 1, 1, 2, 3))
-    kind = kind or g.weighted([("ties", 3), ("generic", 3), ("const", 1), ("heavy", 1), ("small", 1), ("large", 1)])
+    kind0 = kind or g.weighted([("ties", 3), ("generic", 3), ("const", 1), ("heavy", 1), ("small", 1), ("large", 1), ("mixed", 2)])
+    kind = kind0
     cols = []
     for _ in range(M):
+        if kind0 == "mixed":      # columns of very different spread / level in one tensor
+            kind = g.choice(["ties", "generic", "const", "heavy", "generic_shifted", "wide"])
         if kind == "const":
             c = g.dy(-4, 4, 3)
             col = [c] * N
@@ -25,10 +28,15 @@ def gen_sample(g, N=None, M=None, kind=None):
             col = [g.dy(-4, 4, 3) / (1 << 20) for _ in range(N)]
         elif kind == "large":
             col = [g.dy(-4, 4, 3) * (1 << 20) for _ in range(N)]
+        elif kind == "generic_shifted":
+            off = F(g.choice([-150, 150, 40, -40]))
+            col = [g.dy(-4, 4, 4) + off for _ in range(N)]
+        elif kind == "wide":
+            col = [g.dy(-4, 4, 3) * 1024 for _ in range(N)]
         else:
             col = [g.dy(-4, 4, 4) for _ in range(N)]
         cols.append(col)
-    return dict(N=N, M=M, kind=kind, cols=cols)
+    return dict(N=N, M=M, kind=kind0, cols=cols)
 
 
 def to_tensor(torch, smp, dtype=None):
